@@ -124,7 +124,9 @@ func c12ProgOracle(e *progEnv, res *progStepResult) (sig, what string, descend b
 				nOv := len(m.Mem().Ov)
 				_, st, pn2 := m.Step()
 				m.Mem().Ov = m.Mem().Ov[:nOv]
-				if pn2 == nil && st != (ref65816.Table[op].Mn == "STP") {
+				// (an interrupt request raised before the Reset is still pending -- Reset does not cancel it --
+				// and is accepted by this Step, which then executes the handler's first opcode, not op)
+				if pn2 == nil && r0.Interrupt == 0 && st != (ref65816.Table[op].Mn == "STP") {
 					return "unexplained:program:stop-status-after-reset:" + m.Name(), fmt.Sprintf("%s: first Step after Reset (opcode %02x) reports stopped=%v following %v", m.Name(), op, st, e.pathNames()), false
 				}
 			}
